@@ -86,7 +86,33 @@ func (e *itEngine) Generate(seed uint64, tier string, run int) (json.RawMessage,
 		default:
 			t = append([]rune(kernel.Pick(rg, itTexts)), genText(rg, cmapRunes(models[f].ft), maxLen)...)
 		}
+		if rg.Chance(0.15) {
+			// a tour of scripts: a few runes of each of one to three scripts taken from the whole
+			// script table, biased to scripts that have runes whose vertical orientation differs from
+			// the script's default, and to those runes
+			t = genTour(rg)
+		}
 		op := ReuseOp{K: "split", F: f, Text: string(t)}
+		if n := len(c.Ops); n > 0 && rg.Chance(0.2) {
+			// the caller keeps one rune buffer and rewrites it in place: same backing array, same
+			// length, same range and direction as the previous call, other content
+			prev := &c.Ops[n-1]
+			pl := len([]rune(prev.Text))
+			if pl > 0 && len(t) > 0 {
+				for len(t) < pl {
+					t = append(t, t...)
+				}
+				t = t[:pl]
+				prev.N = 1
+				op2 := *prev
+				op2.Text, op2.Flags = string(t), 0
+				if rg.Chance(0.3) {
+					op2.FM = rg.Intn(3)
+				}
+				c.Ops = append(c.Ops, op2)
+				continue
+			}
+		}
 		if rg.Chance(0.06) {
 			// well-nested paired delimiters, possibly very deep, with the script changing inside
 			t = genNested(rg)
@@ -104,6 +130,82 @@ func (e *itEngine) Generate(seed uint64, tier string, run int) (json.RawMessage,
 		c.Ops = append(c.Ops, op)
 	}
 	return json.Marshal(c)
+}
+
+type tourScript struct {
+	runes, minority []rune
+}
+
+var tourScripts []tourScript // sorted by script tag; the first tourMixed have a minority
+var tourMixed int
+
+func buildTour() {
+	by := map[language.Script]*tourScript{}
+	for r := rune(0x20); r < 0x20000; r++ {
+		if r >= 0xD800 && r < 0xE000 {
+			continue
+		}
+		sc := language.LookupScript(r)
+		if !sc.Strong() || sc == language.Unknown {
+			continue
+		}
+		ts := by[sc]
+		if ts == nil {
+			ts = &tourScript{}
+			by[sc] = ts
+		}
+		vo := ucd.LookupVerticalOrientation(sc)
+		if vo.Orientation(r) != vo.Orientation(-1) {
+			if len(ts.minority) < 500 {
+				ts.minority = append(ts.minority, r)
+			}
+		} else if len(ts.runes) < 500 {
+			ts.runes = append(ts.runes, r)
+		}
+	}
+	var keys []language.Script
+	for k := range by {
+		keys = append(keys, k)
+	}
+	sort.Slice(keys, func(i, j int) bool {
+		a, b := by[keys[i]], by[keys[j]]
+		if (len(a.minority) > 0) != (len(b.minority) > 0) {
+			return len(a.minority) > 0
+		}
+		return keys[i] < keys[j]
+	})
+	for _, k := range keys {
+		if ts := by[k]; len(ts.runes) > 0 {
+			tourScripts = append(tourScripts, *ts)
+			if len(ts.minority) > 0 {
+				tourMixed++
+			}
+		}
+	}
+}
+
+func genTour(r *kernel.Rand) []rune {
+	if tourScripts == nil {
+		buildTour()
+	}
+	var out []rune
+	for i := r.Range(1, 3); i > 0; i-- {
+		ts := &tourScripts[r.Intn(len(tourScripts))]
+		if tourMixed > 0 && r.Chance(0.5) {
+			ts = &tourScripts[r.Intn(tourMixed)]
+		}
+		for j := r.Range(2, 8); j > 0; j-- {
+			if len(ts.minority) > 0 && r.Chance(0.3) {
+				out = append(out, kernel.Pick(r, ts.minority))
+			} else {
+				out = append(out, kernel.Pick(r, ts.runes))
+			}
+		}
+		if r.Chance(0.3) {
+			out = append(out, kernel.Pick(r, []rune{' ', '(', ')', '-', '1', 0x301}))
+		}
+	}
+	return out
 }
 
 // genNested builds a text of properly nested brackets (depth up to 100) with strong runes of
@@ -158,6 +260,8 @@ type itWorld struct {
 	seg    shaping.Segmenter
 	out    *kernel.Outcome
 	states map[string]bool
+
+	callerBuf []rune // the caller's long-lived text buffer (ops with N == 1)
 }
 
 func (w *itWorld) fontmap(op *ReuseOp) shaping.Fontmap {
@@ -215,6 +319,11 @@ func (e *itEngine) Execute(raw json.RawMessage) (*kernel.Outcome, error) {
 		var got, want []shaping.Input
 		var dg, dw string
 		in := mk()
+		if op.N == 1 {
+			w.callerBuf = append(w.callerBuf[:0], text...)
+			in.Text = w.callerBuf
+			w.out.Count("probe.caller_buffer_rewritten_in_place", 1)
+		}
 		r1 := reused(func() { got = w.seg.Split(in, w.fontmap(op)); dg = digestInputs(got, w.fn) })
 		// another Segmenter is used in between on an unrelated input: a leak through package-level
 		// state then shows as a difference between the two calls with equal arguments
